@@ -45,8 +45,8 @@ type ditem struct {
 func DiskTerms(evs []*scorch.VerifEvent, n *strace.Namer, ver strace.VersionOf) (terms []cf.T, stats map[string]int) {
 	stats = map[string]int{}
 	var out []ditem
-	sessionStart := 0                  // index in out where the current session begins
-	published := map[uint64]bool{}     // epochs published in this session
+	sessionStart := 0              // index in out where the current session begins
+	published := map[uint64]bool{} // epochs published in this session
 	type pend struct {
 		it    ditem
 		after uint64
@@ -54,6 +54,18 @@ func DiskTerms(evs []*scorch.VerifEvent, n *strace.Namer, ver strace.VersionOf) 
 	}
 	var pending []pend
 	mergedWritten := map[uint64]bool{}
+	// while a persist_prepared waits for the event that published its epoch, everything that
+	// follows it on other goroutines (commit, acks, purges, ...) waits behind it, in order
+	var heldAfter uint64
+	var held []ditem
+	holding := false
+	push := func(it ditem) {
+		if holding {
+			held = append(held, it)
+		} else {
+			out = append(out, it)
+		}
+	}
 	insertAfterCreator := func(it ditem, ep uint64) {
 		// after the creator of ep and after merge_starts already placed there
 		pos := sessionStart
@@ -105,6 +117,11 @@ func DiskTerms(evs []*scorch.VerifEvent, n *strace.Namer, ver strace.VersionOf) 
 			published[e.Epoch] = true
 			stats[e.Kind]++
 			flush()
+			if holding && published[heldAfter] {
+				out = append(out, held...)
+				held = nil
+				holding = false
+			}
 		case "merge_start":
 			t, _ := strace.TermOf(e, n, ver)
 			it := ditem{term: cf.App("XCore", t)}
@@ -137,25 +154,27 @@ func DiskTerms(evs []*scorch.VerifEvent, n *strace.Namer, ver strace.VersionOf) 
 			}
 			it := ditem{term: cf.App("XPrepare", cf.U(e.Epoch), strace.ProjTerm(e.Root), cf.List(ints))}
 			stats["prepare"]++
-			if hasCreator(e.Epoch) || (haveInitial && e.Epoch == initialEpoch) {
-				out = append(out, it)
+			if holding || hasCreator(e.Epoch) || (haveInitial && e.Epoch == initialEpoch) {
+				push(it)
 			} else {
-				pending = append(pending, pend{it, e.Epoch, false})
+				holding = true
+				heldAfter = e.Epoch
+				held = append(held, it)
 			}
 		case "copy_start":
-			out = append(out, ditem{term: "XCopyStart"})
+			push(ditem{term: "XCopyStart"})
 			stats["copy"]++
 		case "copy_end":
 			var ids []uint64
 			for _, s := range e.Root {
 				ids = append(ids, s.ID)
 			}
-			out = append(out, ditem{term: cf.App("XCopyEnd", cf.ListOf(ids, cf.U))})
+			push(ditem{term: cf.App("XCopyEnd", cf.ListOf(ids, cf.U))})
 		case "point":
 			switch e.Name {
 			case "segfile_written":
 				if len(e.Args) > 0 {
-					out = append(out, ditem{term: cf.App("XFile", cf.U(e.Args[0]))})
+					push(ditem{term: cf.App("XFile", cf.U(e.Args[0]))})
 					stats["file"]++
 				}
 			case "memmerge_written", "filemerge_written":
@@ -164,24 +183,24 @@ func DiskTerms(evs []*scorch.VerifEvent, n *strace.Namer, ver strace.VersionOf) 
 				}
 			case "merge_abandoned":
 				if len(e.Args) > 0 {
-					out = append(out, ditem{term: cf.App("XMergeAbort", cf.U(e.Args[0]))})
+					push(ditem{term: cf.App("XMergeAbort", cf.U(e.Args[0]))})
 					stats["merge_abandoned"]++
 				}
 			case "persist_before_commit":
-				out = append(out, ditem{term: "XCommitIntent"})
+				push(ditem{term: "XCommitIntent"})
 			case "purge_bolt_begin":
-				out = append(out, ditem{term: cf.App("XPurgeIntent", cf.ListOf(e.Args, cf.U))})
+				push(ditem{term: cf.App("XPurgeIntent", cf.ListOf(e.Args, cf.U))})
 			case "persist_committed":
-				out = append(out, ditem{term: "XCommit"})
+				push(ditem{term: "XCommit"})
 				stats["commit"]++
 			case "purge_bolt_committed":
-				out = append(out, ditem{term: cf.App("XPurge", cf.ListOf(e.Args, cf.U))})
+				push(ditem{term: cf.App("XPurge", cf.ListOf(e.Args, cf.U))})
 				stats["purge"]++
 			case "zap_remove":
 				if len(e.IDs) > 0 {
 					id, err := strconv.ParseUint(strings.TrimSuffix(e.IDs[0], ".zap"), 16, 64)
 					if err == nil {
-						out = append(out, ditem{term: cf.App("XRemoveZap", cf.U(id))})
+						push(ditem{term: cf.App("XRemoveZap", cf.U(id))})
 						stats["zap_remove"]++
 					}
 				}
@@ -189,7 +208,7 @@ func DiskTerms(evs []*scorch.VerifEvent, n *strace.Namer, ver strace.VersionOf) 
 		case "note":
 			switch e.Name {
 			case "ack":
-				out = append(out, ditem{term: cf.App("XAck", cf.U(e.Args[0]))})
+				push(ditem{term: cf.App("XAck", cf.U(e.Args[0]))})
 				stats["ack"]++
 			case "observe":
 				var ds []cf.T
@@ -200,10 +219,12 @@ func DiskTerms(evs []*scorch.VerifEvent, n *strace.Namer, ver strace.VersionOf) 
 						ds = append(ds, cf.Pair(cf.Int(i), cf.Some(cf.Z(int64(a)-1))))
 					}
 				}
-				out = append(out, ditem{term: cf.App("XObserve", cf.List(ds))})
+				push(ditem{term: cf.App("XObserve", cf.List(ds))})
 			case "crash":
 				// events still waiting for their epoch never happened as far as the disk is concerned
 				pending = nil
+				held = nil
+				holding = false
 				mergedWritten = map[uint64]bool{}
 				out = append(out, ditem{term: "XCrash"})
 				stats["crash"]++
